@@ -8,10 +8,10 @@ Import ListNotations.
 Open Scope Z_scope.
 
 Theorem c03_trace_length : forall clk rng chp,
-  0 <= clk -> 0 <= rng -> 0 <= chp -> Z.max (Z.max rng clk) chp + 1 <= 4294967296 ->
+  0 <= clk -> 0 <= rng -> 0 <= chp -> Z.max (Z.max rng (clk + 1)) chp + 1 <= 4294967296 ->
   let l := trace_len clk rng chp in
-  clk + 1 <= l /\ rng + 1 <= l /\ chp + 1 <= l /\ is_pow2 l /\
-  l < 2 * (Z.max (Z.max rng clk) chp + 1).
+  clk + 2 <= l /\ rng + 1 <= l /\ chp + 1 <= l /\ is_pow2 l /\
+  l < 2 * (Z.max (Z.max rng (clk + 1)) chp + 1).
 Proof. exact trace_len_spec. Qed.
 Print Assumptions c03_trace_length.
 
